@@ -24,6 +24,7 @@ def defining (k : Kind) (head : String) : Bool :=
   | .gp => head == "internal"
   | .user => head == "nopassword"
   | .tg => head.startsWith "type "
+  | .certmap => true          -- every `crypto ca certificate map NAME SEQ` defines (an entry of) the map
   | _ => false
 
 def Dev.obj (d : Dev) (r : Ref) : Option Obj := d.objs.find? fun o => o.id == r
@@ -78,7 +79,7 @@ def exec1 (d : Dev) : Chg → Option Dev
       | some o =>
         if k == .gp then none
         else if o.secs.any (fun s => s.head == h) then some { d with mode := md }
-        else if o.secs.any (fun s => defining k s.head) then none
+        else if k != .certmap && o.secs.any (fun s => defining k s.head) then none
         else some { (d.modObj r fun o => { o with secs := o.secs ++ [{ head := h, mode := m }] }) with mode := md }
       | none => some { objs := d.objs ++ [newSecObj k n h m], mode := md }
     else if !d.defined r then none
